@@ -177,7 +177,7 @@ def split(seq, cuts):
 @st.composite
 def cases(draw):
     schema_js = draw(gen_schema.schemas(max_classes=3, max_assocs=3, max_extra_attrs=1,
-                                        key_types=['UNIQUE_ID', 'INTEGER', 'STRING', 'UNIQUE_ID'], shared_refs=True))
+                                        shared_refs=True))
     rows = [list(r) for r in draw(popgen.dirty_rows(schema_js, max_rows=3))]
     nstm = len(schema_statements(schema_js)) + len(rows)
     perms = [draw(st.permutations(list(range(nstm)))) for _ in range(draw(st.integers(2, 4)))]
@@ -609,7 +609,7 @@ def run(ctx):
         except Exception as e:
             raise Violation('harness-exception:' + exc_bucket(e), case, repr(e))
 
-    hyp_run(ctx, res, cases(), body, ctx.pick(600, 2500), label='populations')
+    hyp_run(ctx, res, cases(), body, ctx.pick(1500, 3000), label='populations')
     hyp_run(ctx, res, inferred_cases(), body, ctx.pick(100, 500), label='inferred')
     hyp_run(ctx, res, container_cases(), body, ctx.pick(25, 120), label='containers')
     return res
